@@ -18,12 +18,23 @@ RULE = ("rotamer: angle sequences (length 1..14, multiples of 1/4 degree) built 
         "range and invalid widths; run on the real _rotamers and on the translated model; oracle = independent "
         "hysteresis automaton on exact fractions (off-gate angles only). transitions: random 1-D/2-D state arrays incl. "
         "rows without transitions, ragged rows; the implementation's output is compared with the hand model AND with the "
-        "definitions translated from disorder.py (gen_transitions incl. its branch test). non-trivial := at least one state change and one retained state in a run of >= 3 frames")
+        "definitions translated from disorder.py (gen_transitions incl. its branch test). round 3s: every call is made twice on the "
+        "same argument objects and every argument is compared with a snapshot taken before the first call (angles, boundary list, "
+        "state arrays incl. int16, column views of a 2-D array as transition_stats passes them, transposed / read-only 2-D arrays, "
+        "RaggedArray element store; transition_stats on lists of trajectories); `narrow` = series of 2..60 frames confined to a window "
+        "narrower than twice the buffer placed around each barrier (incl. the 0/360 one), first frame inside the buffer zone on "
+        "either side, monotone / oscillating / there-and-back; `rotw` = one series run with several buffer widths one after the "
+        "other in one process; `pub` = phi/psi/chi/all_rotamers on synthetic peptide trajectories (random-walk coordinates), "
+        "compared per dihedral with the automaton on the angles dihedral_angles returns. non-trivial := at least one state change and one retained state in a run of >= 3 frames")
 TRUSTED = ["translator/tr_rotamer.py + translator/py2coq.py (get_gates, is_buffered_transition whole; _rotamers loop skeleton Base/RotamerBase.v with translated tests)",
            "modelled not verified: np.digitize, int16 result array",
            "translator/tr_disorder.py (disorder.transitions, both branches and the branch test) over the vocabulary Base/DisorderBase.v + Base/PySlice.v "
            "(slices, element-wise -, comparison mask, np.where/ra.where, np.bincount minlength, RaggedArray(flat, lengths)); "
-           "broadcasting of a length-1 operand in `-` is not modelled (treated as an error)"]
+           "broadcasting of a length-1 operand in `-` is not modelled (treated as an error)",
+           "pub stream (public phi/psi/chi/all_rotamers): oracle only, not evaluated in Coq; 'the angle' is what "
+           "rotamer.dihedral_angles returns on the synthetic trajectory (mdtraj's dihedral computation taken as given), psi shifted "
+           "by 100 degrees in float32 exactly as psi_rotamers does; transition_stats: only the transition frames it returns are "
+           "judged, not the waiting-time statistics"]
 ASSUMPTIONS = ["angles in [0,360); theorems exclude the finitely many gate values; boundary sets are the three used by the library"]
 SHARD = 250
 
@@ -116,32 +127,300 @@ def generate(rng, tier):
             if rng.random() < 0.3:
                 rows = [[r[0]] * len(r) if r else r for r in rows]
             cases.append({"kind": "transra", "rows": rows})
+    cases += _gen_round3s(rng, tier)
     return cases
 
 
-def run_impl(c):
-    if c["kind"] == "rot":
-        from enspara.geometry.rotamer import _rotamers
-        ang = np.array([float(F(a)) for a in c["angles"]])
-        b = F(c["b"])
-        b = int(b) if b.denominator == 1 else float(b)
-        try:
-            return {"states": [int(x) for x in _rotamers(ang, list(c["hb"]), buffer_width=b)]}
-        except Exception as ex:
-            return {"err": type(ex).__name__}
-    from enspara.cards.disorder import transitions
-    try:
-        if c["kind"] == "trans1":
-            return {"tt": [[int(x) for x in transitions(np.array(c["rows"][0]))]]}
-        if c["kind"] == "transra":
-            from enspara.ra.ra import RaggedArray
-            t = transitions(RaggedArray([np.array(r) for r in c["rows"]]))
+# ============================================================================ round 3s streams
+ROT_FORMS = ["plain", "plain", "col", "f32col", "f32"]
+T1_FORMS = ["plain", "int16", "col", "col16", "rev", "readonly"]
+T2_FORMS = ["plain", "int16", "T", "readonly"]
+WIDTHS = [0, 5, 15, 30, F(45, 2), 40, 60, 100]
+
+
+def _off_gates(hb, bs, a):
+    """move an angle that sits exactly on a gate of any of the widths bs by a quarter degree"""
+    gates = set()
+    for b in bs:
+        for i in range(len(hb) - 1):
+            gates.add((hb[i] - b) % 360)
+            gates.add((hb[i + 1] + b) % 360)
+    a = a % 360
+    while a in gates:
+        a = (a + F(1, 4)) % 360
+    return a
+
+
+def _narrow(rng, hb, b, L):
+    """series confined to a window of width < 2b around one barrier; x = signed distance from the barrier, negative on the
+    home side of the first frame"""
+    barrier = rng.choice(hb[:-1])                       # 0 stands for the 0/360 seam
+    side = rng.choice([-1, 1])                          # -1: home side is below the barrier
+    q4 = lambda lo, hi: F(rng.randrange(int(lo * 4), max(int(lo * 4) + 1, int(hi * 4))), 4)
+    d0 = q4(F(1, 4), b) if rng.random() < 0.85 else q4(b, 2 * b)     # mostly inside the buffer zone
+    wmax = 2 * b - F(1, 2)
+    if d0 + b + F(1, 4) < wmax and rng.random() < 0.8:
+        fwd = q4(d0 + b + F(1, 4), wmax)                # reaches past the far gate
+    else:
+        fwd = q4(F(1, 4), max(F(1, 2), wmax))
+    fwd = min(fwd, wmax)
+    back = q4(0, wmax - fwd + F(1, 4)) if wmax - fwd > 0 else F(0)
+    back = min(back, wmax - fwd)
+    x0 = -d0
+    lo, hi = x0 - back, x0 + fwd
+    pick = lambda: q4(lo, hi + F(1, 4))
+    shape = rng.choice(["mono", "mono", "osc", "thereback", "random"])
+    if shape == "mono":
+        xs = [x0] + sorted(pick() for _ in range(L - 1))
+        xs = [max(x, x0) for x in xs]
+    elif shape == "osc":
+        xs = [x0] + [(hi if k % 2 == 0 else lo) + rng.choice([0, F(-1, 4), F(1, 4), F(1, 2)]) * (-1 if k % 2 == 0 else 1)
+                     for k in range(L - 1)]
+    elif shape == "thereback":
+        up = sorted(max(pick(), x0) for _ in range((L - 1) // 2 + 1))
+        xs = [x0] + up + sorted((pick() for _ in range(L - 2 - (L - 1) // 2)), reverse=True)
+    else:
+        xs = [x0] + [pick() for _ in range(L - 1)]
+    xs = [min(max(x, lo), hi) for x in xs[:L]]
+    return [_off_gates(hb, [b], (barrier + (x if side < 0 else -x)) % 360) for x in xs]
+
+
+def _pick_hb(rng):
+    if rng.random() < 0.85:
+        return LIB[rng.choice(list(LIB))]
+    k = rng.choice([2, 3, 4])
+    return [0] + sorted(rng.sample(range(30, 331, 10), k - 1)) + [360]
+
+
+def _state_rows(rng, nrows, L):
+    return [[rng.randrange(3) if rng.random() < 0.5 else 1 for _ in range(L)] for _ in range(nrows)]
+
+
+def _gen_round3s(rng, tier):
+    n = 500 if tier == "quick" else 6000
+    cases = []
+    # --- narrow series around every barrier
+    for _ in range(n // 2):
+        hb = _pick_hb(rng)
+        nb = len(hb) - 1
+        bmax = F(360, nb)
+        b = rng.choice([b for b in [2, 5, 15, F(45, 2), 30, 40, 60, 100] if b < bmax])
+        L = rng.choice([2, 3, 4, 5, 6, 8, 20, 40, 60])
+        cases.append({"kind": "rot", "stream": "narrow", "hb": hb, "b": str(F(b)), "form": rng.choice(ROT_FORMS),
+                      "angles": [str(a) for a in _narrow(rng, hb, F(b), L)]})
+    # --- several buffer widths, one boundary set, one process
+    for _ in range(n // 5):
+        hb = _pick_hb(rng)
+        bmax = F(360, len(hb) - 1)
+        ok = [b for b in WIDTHS if b < bmax]
+        bs = [rng.choice(ok) for _ in range(rng.choice([2, 3, 4]))]
+        if len(set(bs)) == 1:
+            bs[-1] = rng.choice([b for b in ok if b != bs[0]])
+        if rng.random() < 0.6:
+            bs.append(bs[0])                            # back to the first width
+        L = rng.choice([3, 5, 8, 14])
+        ang = []
+        for _k in range(L):
+            ang += _angles(rng, hb, F(rng.choice(bs)), 1)
+        ang = [_off_gates(hb, bs, a) for a in ang]
+        cases.append({"kind": "rotw", "hb": hb, "bs": [str(F(b)) for b in bs], "form": rng.choice(ROT_FORMS),
+                      "angles": [str(a) for a in ang]})
+    # --- array forms of the state sequences given to transitions
+    for _ in range(n // 3):
+        q = rng.random()
+        if q < 0.45:
+            cases.append({"kind": "trans1", "rows": _state_rows(rng, 1, rng.choice([2, 3, 6, 9, 15])), "form": rng.choice(T1_FORMS),
+                          "pad": rng.choice([1, 2, 3])})
+        elif q < 0.75:
+            L = rng.choice([2, 3, 5, 7])
+            cases.append({"kind": "trans2", "rows": _state_rows(rng, rng.choice([1, 2, 3, 4]), L), "form": rng.choice(T2_FORMS)})
         else:
-            rows = c["rows"]
-            t = transitions(np.array(rows, dtype=int).reshape(len(rows), len(rows[0])))
-        return {"tt": [[int(x) for x in row] for row in t]}
+            nfeat, ntrj = rng.choice([1, 2, 3]), rng.choice([1, 2, 3])
+            trajs = [[list(r) for r in zip(*_state_rows(rng, nfeat, rng.choice([3, 4, 6, 9])))] for _ in range(ntrj)]
+            cases.append({"kind": "transstats", "trajs": trajs, "dtype": rng.choice(["int16", "int16", "int64"]),
+                          "rows": [[fr[j] for fr in t] for t in trajs for j in range(nfeat)]})
+    # --- public functions on synthetic peptide trajectories
+    fns = ["phi_rotamers", "psi_rotamers", "chi_rotamers", "all_rotamers"]
+    for k in range(8 if tier == "quick" else 40):
+        cases.append({"kind": "pub", "fn": fns[k % 4],
+                      "seq": ["LYS"] + [rng.choice(["ALA", "LYS", "ARG", "GLY", "LYS"]) for _ in range(rng.choice([2, 3, 4]))],
+                      "nframes": rng.choice([2, 5, 12, 25]), "seed": rng.randrange(10 ** 6), "step": rng.choice([0.01, 0.03, 0.3]),
+                      "b": rng.choice([0, 5, 15, 15, 30, 60])})
+    return cases
+
+
+def _snap(a):
+    a = np.asarray(a)
+    return (str(a.dtype), a.shape, np.ascontiguousarray(a).tobytes())
+
+
+def _rot_array(c):
+    vals = [float(F(a)) for a in c["angles"]]
+    form = c.get("form", "plain")
+    dt = "float32" if form.startswith("f32") else "float64"
+    if form.endswith("col"):
+        base = np.zeros((len(vals), 3), dtype=dt)
+        base[:, 0] = [(7 * k) % 360 for k in range(len(vals))]
+        base[:, 2] = 359.5
+        base[:, 1] = vals
+        return base, base[:, 1]
+    arr = np.array(vals, dtype=dt)
+    return arr, arr
+
+
+def _rot_call(ang, hb, b):
+    from enspara.geometry.rotamer import _rotamers
+    b = int(b) if b.denominator == 1 else float(b)
+    try:
+        return [int(x) for x in _rotamers(ang, hb, buffer_width=b)]
     except Exception as ex:
         return {"err": type(ex).__name__}
+
+
+def _run_rot(c):
+    base, ang = _rot_array(c)
+    hb = list(c["hb"])
+    s_base, s_hb = _snap(base), list(hb)
+    bs = [F(b) for b in (c["bs"] if c["kind"] == "rotw" else [c["b"], c["b"]])]
+    runs = [_rot_call(ang, hb, b) for b in bs]
+    changed = []
+    if _snap(base) != s_base:
+        changed.append("angles array now %s" % np.asarray(ang).tolist())
+    if hb != s_hb or any(type(x) is not type(y) for x, y in zip(hb, s_hb)):
+        changed.append("boundary list now %s" % hb)
+    r = {"runs": runs, "arg_changed": changed}
+    if c["kind"] == "rot":
+        r.update(runs[0] if isinstance(runs[0], dict) else {"states": runs[0]})
+    return r
+
+
+def _trans_array(c):
+    """(object whose bytes must not change, array handed to transitions)"""
+    rows, form = c["rows"], c.get("form", "plain")
+    if c["kind"] == "trans1":
+        v = rows[0]
+        if form in ("col", "col16"):
+            base = np.full((len(v), c.get("pad", 1) + 1), 1, dtype="int16" if form == "col16" else "int64")
+            j = c.get("pad", 1) // 2
+            base[:, j] = v
+            return base, base[:, j]
+        if form == "rev":
+            base = np.array(v[::-1])
+            return base, base[::-1]
+        base = np.array(v, dtype="int16" if form == "int16" else None) if v else np.array(v, dtype=int)
+        if form == "readonly":
+            base.setflags(write=False)
+        return base, base
+    if form == "T":
+        base = np.array([list(x) for x in zip(*rows)], dtype=int).reshape(len(rows[0]), len(rows))
+        return base, base.T
+    base = np.array(rows, dtype="int16" if form == "int16" else int).reshape(len(rows), len(rows[0]))
+    if form == "readonly":
+        base.setflags(write=False)
+    return base, base
+
+
+def _tt(t, one_d):
+    return [[int(x) for x in t]] if one_d else [[int(x) for x in row] for row in t]
+
+
+def _run_trans(c):
+    from enspara.cards.disorder import transitions, transition_stats
+    out = {"arg_changed": []}
+    if c["kind"] == "transstats":
+        X = [np.array(t, dtype=c["dtype"]).reshape(len(t), len(t[0])) for t in c["trajs"]]
+        snaps = [_snap(x) for x in X]
+        for k in ("tt", "tt2"):
+            try:
+                tts = transition_stats(X)[0]
+                out[k] = [[int(v) for v in col] for trj in tts for col in trj]
+            except (ZeroDivisionError, FloatingPointError) as ex:      # the waiting-time statistics, not the bookkeeping
+                out[k + "_skipped"] = type(ex).__name__
+            except Exception as ex:
+                out[k] = {"err": type(ex).__name__}
+        for i, x in enumerate(X):
+            if _snap(x) != snaps[i]:
+                out["arg_changed"].append("trajectory %d now %s" % (i, x.tolist()))
+        if "tt" not in out or isinstance(out["tt"], dict):
+            out["err"] = out.pop("tt", {}).get("err", out.get("tt_skipped"))
+        return out
+    if c["kind"] == "transra":
+        from enspara.ra.ra import RaggedArray
+        arg = RaggedArray([np.array(r) for r in c["rows"]])
+        look = lambda: (_snap(arg._data), _snap(arg.lengths))
+        show = lambda: [np.asarray(r).tolist() for r in arg]
+    else:
+        base, arg = _trans_array(c)
+        look = lambda: _snap(base)
+        show = lambda: np.asarray(arg).tolist()
+    before = look()
+    one_d = c["kind"] == "trans1"
+    for k in ("tt", "tt2"):
+        try:
+            out[k] = _tt(transitions(arg), one_d)
+        except Exception as ex:
+            out[k] = {"err": type(ex).__name__}
+    if look() != before:
+        out["arg_changed"].append("state array now %s" % show())
+    if isinstance(out["tt"], dict):
+        out["err"] = out.pop("tt")["err"]
+    return out
+
+
+PUB_SIDE = {"ALA": ["CB"], "GLY": [], "LYS": ["CB", "CG", "CD", "CE", "NZ"], "ARG": ["CB", "CG", "CD", "NE", "CZ"]}
+PUB_HB = {"phi": LIB["phi"], "psi": LIB["psi"], "chi1": LIB["chi"], "chi2": LIB["chi"], "chi3": LIB["chi"], "chi4": LIB["chi"]}
+PUB_TYPES = {"phi_rotamers": ["phi"], "psi_rotamers": ["psi"], "chi_rotamers": ["chi1", "chi2", "chi3", "chi4"],
+             "all_rotamers": ["phi", "psi", "chi1", "chi2", "chi3", "chi4"]}
+
+
+def _pub_traj(c):
+    import mdtraj as md
+    top = md.Topology()
+    ch = top.add_chain()
+    for name in c["seq"]:
+        res = top.add_residue(name, ch)
+        for an in ["N", "CA", "C", "O"] + PUB_SIDE[name]:
+            top.add_atom(an, md.element.carbon if an[0] == "C" else md.element.nitrogen if an[0] == "N" else md.element.oxygen, res)
+    rs = np.random.RandomState(c["seed"])
+    xyz = np.empty((c["nframes"], top.n_atoms, 3), dtype="float32")
+    xyz[0] = rs.rand(top.n_atoms, 3)
+    for t in range(1, c["nframes"]):
+        xyz[t] = xyz[t - 1] + c["step"] * rs.randn(top.n_atoms, 3)
+    return md.Trajectory(xyz, top)
+
+
+def _run_pub(c):
+    from enspara.geometry import rotamer
+    traj = _pub_traj(c)
+    before = _snap(traj.xyz)
+    out = {"arg_changed": [], "cols": []}
+    try:
+        # the angles the state machine is given: dihedral_angles' result, psi shifted by 100 degrees exactly as published
+        for ty in PUB_TYPES[c["fn"]]:
+            ang = rotamer.dihedral_angles(traj, ty)[0]
+            if ty == "psi":
+                ang = ang - 100
+                ang[np.where(ang < 0)] += 360
+            for j in range(ang.shape[1]):
+                out["cols"].append({"type": ty, "angles": [str(F(float(x))) for x in ang[:, j]]})
+        res = [getattr(rotamer, c["fn"])(traj, buffer_width=c["b"]) for _ in range(2)]
+        out["states"] = [[int(x) for x in res[0][0][:, j]] for j in range(res[0][0].shape[1])]
+        out["states2"] = [[int(x) for x in res[1][0][:, j]] for j in range(res[1][0].shape[1])]
+        out["n_states"] = [int(x) for x in res[0][2]]
+        out["dtype"] = str(res[0][0].dtype)
+    except Exception as ex:
+        out["err"] = type(ex).__name__
+    if _snap(traj.xyz) != before:
+        out["arg_changed"].append("trajectory coordinates changed")
+    return out
+
+
+def run_impl(c):
+    if c["kind"] in ("rot", "rotw"):
+        return _run_rot(c)
+    if c["kind"] == "pub":
+        return _run_pub(c)
+    return _run_trans(c)
 
 
 def _spec(hb, b, angles):
@@ -168,38 +447,100 @@ def _spec(hb, b, angles):
     return out
 
 
-def oracle(c, r):
+def _oracle_rot_one(c, b, got, out, label=""):
+    hb = c["hb"]
+    nb = len(hb) - 1
+    ang = [F(a) for a in c["angles"]]
+    valid = 0 <= b < F(360, nb)
+    if not valid:
+        if not isinstance(got, dict):
+            out.append(("invalid-buffer-accepted", "buffer %s accepted for %d basins" % (b, nb)))
+        return
+    if list(hb) not in LIB.values():
+        return   # the property quantifies over the library's boundary sets only; others: correspondence only
+    exp = _spec(hb, b, ang)
+    if exp is None:
+        return
+    if got != exp:
+        out.append(("hysteresis", "hb=%s b=%s angles=%s%s: got %s expected %s" % (hb, b, c["angles"], label, got, exp)))
+    elif any(not (0 <= s < nb) for s in got):
+        out.append(("state-range", str(got)))
+
+
+def _oracle_pub(c, r):
     out = []
-    if c["kind"] == "rot":
-        hb, b = c["hb"], F(c["b"])
-        nb = len(hb) - 1
-        ang = [F(a) for a in c["angles"]]
-        valid = 0 <= b < F(360, nb)
-        if not valid:
-            if "err" not in r:
-                out.append(("invalid-buffer-accepted", "buffer %s accepted for %d basins" % (b, nb)))
-            return out
-        if list(hb) not in LIB.values():
-            return out   # the property quantifies over the library's boundary sets only; others: correspondence only
-        exp = _spec(hb, b, ang)
-        if exp is None:
-            return out
-        if r.get("states") != exp:
-            out.append(("hysteresis", "hb=%s b=%s angles=%s: got %s expected %s" % (hb, b, c["angles"], r, exp)))
-        elif any(not (0 <= s < nb) for s in r["states"]):
-            out.append(("state-range", str(r)))
+    head = "%s(buffer_width=%s) on a %d-frame trajectory of %s (coordinate seed %d, step %s): " % (
+        c["fn"], c["b"], c["nframes"], "-".join(c["seq"]), c["seed"], c["step"])
+    if r["arg_changed"]:
+        out.append(("rotamers-argument-modified", head + "; ".join(r["arg_changed"])))
+    if "err" in r:
+        out.append(("public-rotamers-raise", head + r["err"]))
         return out
-    rows = c["rows"]
-    exp = [[n for n in range(len(row) - 1) if row[n] != row[n + 1]] for row in rows]
-    if r.get("tt") != exp:
-        out.append(("transitions", "rows=%s: got %s expected %s" % (rows, r, exp)))
+    if len(r["states"]) != len(r["cols"]):
+        out.append(("hysteresis", head + "%d dihedral columns returned, %d dihedrals" % (len(r["states"]), len(r["cols"]))))
+        return out
+    if r["states2"] != r["states"]:
+        out.append(("rotamers-second-call", head + "second call on the same trajectory gives other states"))
+    for j, col in enumerate(r["cols"]):
+        hb = PUB_HB[col["type"]]
+        exp = _spec(hb, F(c["b"]), [F(a) for a in col["angles"]])
+        if exp is not None and r["states"][j] != exp:
+            out.append(("hysteresis", head + "dihedral %d (%s) angles %s: got %s expected %s" % (
+                j, col["type"], [float(F(a)) for a in col["angles"]], r["states"][j], exp)))
+            break
+        if r["n_states"][j] != len(hb) - 1:
+            out.append(("state-range", head + "dihedral %d (%s): n_states %d" % (j, col["type"], r["n_states"][j])))
+            break
     return out
 
 
+def oracle(c, r):
+    out = []
+    if c["kind"] == "pub":
+        return _oracle_pub(c, r)
+    if c["kind"] in ("rot", "rotw"):
+        bs = [F(b) for b in c["bs"]] if c["kind"] == "rotw" else [F(c["b"])]
+        form = " (angles as %s)" % c["form"] if c.get("form", "plain") != "plain" else ""
+        for k, b in enumerate(bs):
+            _oracle_rot_one(c, b, r["runs"][k], out,
+                            form + (" [call %d of widths %s in one process]" % (k + 1, c["bs"]) if c["kind"] == "rotw" else ""))
+        if c["kind"] == "rot" and r["runs"][1] != r["runs"][0]:
+            out.append(("rotamers-second-call", "hb=%s b=%s angles=%s%s: first call %s, second call on the same array %s"
+                        % (c["hb"], c["b"], c["angles"], form, r["runs"][0], r["runs"][1])))
+        if r["arg_changed"]:
+            out.append(("rotamers-argument-modified", "hb=%s b=%s angles=%s%s: %s"
+                        % (c["hb"], c.get("b", c.get("bs")), c["angles"], form, "; ".join(r["arg_changed"]))))
+        return out
+    rows = c["rows"]
+    what = "rows=%s%s" % (rows, " (given as %s)" % (c.get("form") or c["kind"]) if c.get("form", "plain") != "plain" or c["kind"] == "transstats" else "")
+    exp = [[n for n in range(len(row) - 1) if row[n] != row[n + 1]] for row in rows]
+    if "tt_skipped" in r:
+        exp = None
+    if exp is not None and r.get("tt") != exp:
+        out.append(("transitions", "%s: got %s expected %s" % (what, {k: r[k] for k in ("tt", "err") if k in r}, exp)))
+    if r.get("arg_changed"):
+        out.append(("transitions-argument-modified", "%s: after the call %s" % (what, "; ".join(r["arg_changed"]))))
+    if exp is not None and "tt2" in r and "tt" in r and r["tt2"] != r["tt"]:
+        out.append(("transitions-second-call", "%s: first call %s, second call on the same array %s (frames n/n+1 differ at %s)"
+                    % (what, r["tt"], r["tt2"], exp)))
+    return out
+
+
+def _rot_term(c, b):
+    return "gen_rotamers %s %s %s" % (clist([F(a) for a in c["angles"]], cq, "Q"), clist(c["hb"], cq, "Q"), cq(F(b)))
+
+
 def coq_check(c, r):
-    if c["kind"] == "rot":
-        exp = copt(r.get("states"), lambda l: clist(l, cz, "Z"), "(list Z)")
-        return "CaseLib.opt_eqb CaseLib.zl_eqb (%s) %s" % (coq_show(c), exp)
+    if c["kind"] == "pub":
+        return None          # oracle only (float32 angles from mdtraj)
+    if c["kind"] in ("rot", "rotw"):
+        bs = c["bs"] if c["kind"] == "rotw" else [c["b"]]
+        terms = []
+        for k, b in enumerate(bs):
+            got = r["runs"][k]
+            exp = copt(None if isinstance(got, dict) else got, lambda l: clist(l, cz, "Z"), "(list Z)")
+            terms.append("CaseLib.opt_eqb CaseLib.zl_eqb (%s) %s" % (_rot_term(c, b), exp))
+        return " && ".join("(%s)" % t for t in terms)
     if "tt" not in r:
         return None   # error path: oracle decides (known finding or violation)
     exp = clist(r["tt"], lambda l: clist(l, cn, "nat"), "(list nat)")
@@ -208,6 +549,9 @@ def coq_check(c, r):
     if c["kind"] == "trans1":
         gen = "match gen_transitions (Arr1 %s) with TT1 l => CaseLib.nl_eqb l %s | _ => false end" % (
             clist(c["rows"][0], cz, "Z"), clist(r["tt"][0], cn, "nat"))
+    elif c["kind"] == "transstats":
+        gen = " && ".join("(match gen_transitions (Arr1 %s) with TT1 l => CaseLib.nl_eqb l %s | _ => false end)" % (
+            clist(row, cz, "Z"), clist(t, cn, "nat")) for row, t in zip(c["rows"], r["tt"]))
     else:
         gen = "match gen_transitions (Arr2 %s) with TT2 l => CaseLib.list_eqb CaseLib.nl_eqb l %s | _ => false end" % (
             clist(c["rows"], lambda l: clist(l, cz, "Z"), "(list Z)"), exp)
@@ -215,22 +559,64 @@ def coq_check(c, r):
 
 
 def coq_show(c):
+    if c["kind"] == "pub":
+        return "tt"
     if c["kind"] == "rot":
-        return "gen_rotamers %s %s %s" % (clist([F(a) for a in c["angles"]], cq, "Q"),
-                                          clist(c["hb"], cq, "Q"), cq(F(c["b"])))
+        return _rot_term(c, c["b"])
+    if c["kind"] == "rotw":
+        return clist([_rot_term(c, b) for b in c["bs"]], lambda x: x, "(option (list Z))")
     return "transitions2 %s" % clist(c["rows"], lambda l: clist(l, cz, "Z"), "(list Z)")
 
 
+def _nt_states(s):
+    return isinstance(s, list) and len(s) >= 3 and len(set(s)) >= 2 and any(x == y for x, y in zip(s, s[1:]))
+
+
 def nontrivial(c, r):
-    if c["kind"] == "rot":
-        s = r.get("states")
-        return bool(s) and len(s) >= 3 and len(set(s)) >= 2 and any(x == y for x, y in zip(s, s[1:]))
+    if c["kind"] == "pub":
+        return any(_nt_states(s) for s in r.get("states", []))
+    if c["kind"] in ("rot", "rotw"):
+        return any(_nt_states(s) for s in r["runs"])
     return any(len(set(row)) > 1 for row in c["rows"])
 
 
+def _narrow_tags(c, r):
+    """which situation of the narrow stream the series realises (measured on the exact angles)"""
+    hb, b = c["hb"], F(c["b"])
+    ang = [F(a) for a in c["angles"]]
+    t = ["rot-narrow"]
+    circ = min(max((a - s) % 360 for a in ang) for s in ang)        # smallest arc from some frame covering all frames
+    if b > 0 and circ < 2 * b:
+        t.append("rot-narrow-span-below-2buffer")
+        s = r.get("states")
+        if isinstance(s, list) and len(set(s)) > 1:
+            t.append("rot-narrow-with-state-change")
+            first_b = min(hb[:-1], key=lambda x: min((ang[0] - x) % 360, (x - ang[0]) % 360))
+            t.append("rot-narrow-change-at-seam" if first_b == 0 else "rot-narrow-change-at-inner-barrier")
+            if max(ang) - min(ang) < 2 * b:
+                t.append("rot-narrow-linear-span-below-2buffer-with-state-change")
+    if len(ang) >= 20:
+        t.append("rot-narrow-long")
+    return t
+
+
 def tags(c, r):
+    if c["kind"] == "pub":
+        return ["pub:" + c["fn"]] + (["pub-raises"] if "err" in r else [])
+    if c["kind"] == "rotw":
+        t = ["rotw", "rot-" + str(len(c["hb"]) - 1) + "basin"]
+        ok = [x for x in r["runs"] if isinstance(x, list)]
+        if len({tuple(x) for x in ok}) > 1:
+            t.append("rotw-widths-give-different-states")
+        if c.get("form", "plain") != "plain":
+            t.append("rot-form:" + c["form"])
+        return t
     if c["kind"] != "rot":
         t = [c["kind"]]
+        if c.get("form", "plain") != "plain":
+            t.append("trans-form:" + c["kind"] + ":" + c["form"])
+        if c["kind"] == "transstats":
+            return t + (["transstats-skipped"] if "tt_skipped" in r else [])
         if any(len(row) <= 1 for row in c["rows"]):
             t.append("trans-short-row")
         if c["kind"] != "trans1" and all(len(set(row)) <= 1 for row in c["rows"]):
@@ -242,14 +628,22 @@ def tags(c, r):
     b = F(c["b"])
     if "err" in r:
         t.append("rot-rejected")
-    if len(c["hb"]) == 3 and 0 <= b < 180 and 2 * b + min(c["hb"][1], 360 - c["hb"][1]) >= 360 - 2 * b + 0:
-        pass
     if len(c["hb"]) == 3 and 90 < b < 180:
         t.append("rot-wide-2basin-buffer")
     if b == 0:
         t.append("rot-zero-buffer")
+    if c.get("form", "plain") != "plain":
+        t.append("rot-form:" + c["form"])
+    if c.get("stream") == "narrow":
+        t += _narrow_tags(c, r)
     return t
 
 
 ESSENTIAL_TAGS = ["transra", "rot-2basin", "rot-3basin", "rot-wide-2basin-buffer", "rot-zero-buffer", "rot-rejected", "trans1", "trans2",
-                  "trans-short-row", "trans-no-transition-anywhere", "trans-trailing-quiet-row"]
+                  "trans-short-row", "trans-no-transition-anywhere", "trans-trailing-quiet-row",
+                  "rot-narrow-span-below-2buffer", "rot-narrow-change-at-seam", "rot-narrow-change-at-inner-barrier",
+                  "rot-narrow-linear-span-below-2buffer-with-state-change", "rot-narrow-long", "rotw",
+                  "rotw-widths-give-different-states", "rot-form:col", "rot-form:f32col", "transstats",
+                  "trans-form:trans1:col", "trans-form:trans1:col16", "trans-form:trans1:int16", "trans-form:trans1:rev",
+                  "trans-form:trans1:readonly", "trans-form:trans2:T", "trans-form:trans2:int16", "trans-form:trans2:readonly",
+                  "pub:phi_rotamers", "pub:psi_rotamers", "pub:chi_rotamers", "pub:all_rotamers"]
